@@ -8,7 +8,7 @@ from ..core import frac
 
 LEVEL = "proof"
 RULE = ("exhaustive: every (pair of) sorted multiset(s) of <=2 intervals over 0..4 on one chromosome "
-        "(quick) / <=2 x <=3 over 0..6 (thorough), with and without rows on a second chromosome; "
+        "(quick) / <=2 x <=2 over 0..5 plus a 30% sample of <=2 x 3 over 0..5 (thorough), with and without rows on a second chromosome; "
         "random: tables <=40 rows, coordinates to 1e6, biased to duplicates/abutting/nested. "
         "non-trivial = at least two rows interact (overlap/abut/nest) or the output differs from the input; "
         "distinct = distinct (op, input) by hash")
@@ -77,9 +77,13 @@ def gen_cases(rng, tier):
                 c["tag"] = "search"
                 cases.append(c)
         return cases
-    hi, ka, kb = (4, 2, 2) if tier == "quick" else (6, 2, 3)
+    # thorough: every pair of <=2 x <=2 rows over 0..5 plus a 30% sample of the pairs with a 3-row second table
+    # (the full <=2 x <=3 scope over 0..6 is 1.1 million cases / 17 minutes: kept out of the registered command)
+    hi, ka, kb = (4, 2, 2) if tier == "quick" else (5, 2, 3)
     A = T.small_tables(hi, ka, prefix="a")
     B = T.small_tables(hi, kb, prefix="b")
+    if tier != "quick":
+        B = [b for b in B if len(b) < 3 or rng.random() < 0.3]
     singles = T.small_tables(hi, 3 if tier == "quick" else 3, prefix="a")
     for t in singles:
         for c in _single_ops(t):
